@@ -86,7 +86,7 @@ func genManifest(path string) {
 		},
 		"checks":         checks,
 		"not_applicable": nas,
-		"notes":          "All checks are static (no part of zenodb is executed). Each decides named structural clauses (DESIGN.md §4) and fails on unresolved anchors, instance counts below the confirmed floor, undecided obligations, type errors or analyser panics. Genuine defects found are listed in /verif/known_findings.json (all repaired by fix: commits so far).",
+		"notes":          "All checks are static (no part of zenodb is executed). Each decides named structural clauses (DESIGN.md §4) and fails on unresolved anchors, instance counts below the confirmed floor, undecided obligations, type errors or analyser panics. Genuine defects found are listed in /verif/known_findings.json: those that could be repaired by a small fix: commit are recorded as fixed (the rule that found each keeps watching for its return), those that could not (the existing tests pin the behaviour, or the defect is in a dependency) are recorded as known and printed as KNOWN-FINDING lines (DESIGN.md §5).",
 	}
 	b, _ := json.MarshalIndent(m, "", " ")
 	if err := os.WriteFile(path, append(b, '\n'), 0o644); err != nil {
